@@ -156,6 +156,69 @@ def explore(task):
     return res
 
 
+def same_task_part(_):
+    """Requests awaited one after the other from the SAME asyncio task (a worker loop): per-request
+    state kept in context variables (generation options, llm stats, streaming handler, explain info)
+    must not leak from one request into the next."""
+    import asyncio
+    res = {"same_task_sequences": 0, "same_task_requests": 0, "viol": []}
+    reqs = {
+        "P": dict(messages=[{"role": "user", "content": "UP hello"}], options={"llm_params": {"temperature": 0.9}}),
+        "Q": dict(messages=[{"role": "user", "content": "UQ hello"}]),
+        "R": dict(messages=[{"role": "user", "content": "UR hello"}], options={"rails": ["input"]}),
+        "S": dict(messages=[{"role": "user", "content": "US hello"}], options={"output_vars": True, "log": {"llm_calls": True}}),
+    }
+    world = build(False)
+
+    def observe(name, result, calls):
+        text = result.response[-1]["content"] if hasattr(result, "response") and isinstance(result.response, list) else (
+            result.get("content") if isinstance(result, dict) else (result.response if hasattr(result, "response") else result))
+        return (type(result).__name__, text, tuple((str(c["task"]), c["temperature"], c["prompt"]) for c in calls))
+
+    def run_seq(names, w):
+        async def go():
+            out = []
+            for n in names:
+                m = w.mark()
+                w.llm_fn = llm_fn
+                r = await w.rails.generate_async(**{k: (dict(v) if isinstance(v, dict) else list(v)) for k, v in reqs[n].items()})
+                out.append(observe(n, r, w.since(m)[0]))
+            return out
+        loop = asyncio.new_event_loop()
+        try:
+            return loop.run_until_complete(go())
+        finally:
+            loop.close()
+
+    alone = {n: run_seq([n], build(False))[0] for n in reqs}
+    for k in (2, 3):
+        for names in itertools.permutations(reqs, k):
+            res["same_task_sequences"] += 1
+            w = build(False)
+            try:
+                got = run_seq(list(names), w)
+            except Exception as e:
+                res["viol"].append((f"generate-raised:same-task:{'>'.join(names)}", repr(e), {"engine": "E3-world", "prop": "C15", "same_task": list(names)}))
+                continue
+            for n, g in zip(names, got):
+                res["same_task_requests"] += 1
+                if g != alone[n]:
+                    diff = "result type" if g[0] != alone[n][0] else ("reply" if g[1] != alone[n][1] else "LLM calls (task, temperature, prompt)")
+                    res["viol"].append((f"request-state-leaks-into-next-request:{'>'.join(names[:names.index(n) + 1])}",
+                                        f"requests {list(names)} awaited from one task: request {n} differs from the isolated run in its {diff}: {str(g)[:200]} vs {str(alone[n])[:200]}",
+                                        {"engine": "E3-world", "prop": "C15", "same_task": list(names)}))
+                    break
+            if w.llm.temperature != 0.5:
+                res["viol"].append(("llm-parameters-not-restored:same-task", f"after {list(names)} llm.temperature = {w.llm.temperature}", {"engine": "E3-world", "prop": "C15", "same_task": list(names)}))
+    seen, uniq = set(), []
+    for v in res["viol"]:
+        if v[0] not in seen:
+            seen.add(v[0])
+            uniq.append(v)
+    res["viol"] = uniq
+    return res
+
+
 def run(rep, tier):
     from vf import par
     import vf.engines.world  # noqa
@@ -164,6 +227,12 @@ def run(rep, tier):
     ts = [(d, i) for d in (False, True) for i in range(n_sets)]
     agg = {}
     for r in par.pmap(explore, ts):
+        for k, v in r.items():
+            if isinstance(v, int):
+                agg[k] = agg.get(k, 0) + v
+        for sig, what, info in r["viol"]:
+            rep.violation(sig, what, info)
+    for r in par.pmap(same_task_part, [0]):
         for k, v in r.items():
             if isinstance(v, int):
                 agg[k] = agg.get(k, 0) + v
@@ -193,6 +262,12 @@ def run(rep, tier):
 
 
 def replay(rp):
+    if rp.get("same_task"):
+        r = same_task_part(0)
+        for sig, what, info in r["viol"]:
+            print(sig, ":", what)
+        print(rp["what"])
+        return 0
     if rp.get("engine") == "E2-aio":
         from vf.props import c15_conc
         return c15_conc.replay(rp)
